@@ -17,6 +17,7 @@ from .zeval import zeval, Unevaluable, Ambiguous
 from .specsym import RaisedVal
 from . import ops
 
+_NO_RESULT = object()
 NATIVE_PY = os.environ.get('VERIF_NATIVE_PYTHON', '/venv/bin/python')
 
 
@@ -245,7 +246,7 @@ def crosscheck(contract, recs, repo_src, verif_dir, witness=None, n=8, seed=0):
         try:
             sym = sym_neutral(match[1].result, env, match[3])
         except (Unevaluable, Ambiguous, ZeroDivisionError, OverflowError, ValueError):
-            continue
+            sym = _NO_RESULT        # the result itself has no numeric rendering (abstract calls, opaque values): compare the clauses only
         clause_vals = {}
         for k, gterm in match[1].clauses.items():
             try:
@@ -274,7 +275,10 @@ def crosscheck(contract, recs, repo_src, verif_dir, witness=None, n=8, seed=0):
         res['compared'] += 1
         bad_clauses = {k: (v, nat['clauses'][k]) for k, v in clause_vals.items() if k in nat.get('clauses', {}) and v != nat['clauses'][k]}
         res['clauses_compared'] += len(clause_vals)
-        if neutral_equal(sym, nat['outcome']) and not bad_clauses:
+        if sym is _NO_RESULT and not clause_vals:
+            res['compared'] -= 1
+            continue
+        if (sym is _NO_RESULT or contract['meta'].get('set_order_dependent_result') or neutral_equal(sym, nat['outcome'])) and not bad_clauses:
             res['agreed'] += 1
         elif bad_clauses:
             res['disagreements'].append({'leaves': lv, 'path': pi, 'clauses (symbolic, native)': bad_clauses})
